@@ -22,6 +22,8 @@
 (*   dangling [cannot-open]  path that vanished: dangling symlink (named   *)
 (*                           explicitly; a walk skips symlinks silently)   *)
 (*   dir000   [cannot-open]  directory of mode 000 met by the walk         *)
+(*   dir444   [cannot-open]  a file in a directory of mode 444: it is listed (names can be read) but can be neither       *)
+(*                           stat'ed nor opened                                                                      *)
 (*   eio      [read-error]   opens, every read fails (named explicitly)    *)
 (*   prefail  [read-error]   the --pre command of this file fails          *)
 (*                                                                         *)
@@ -55,7 +57,7 @@ VARIABLES scn, pc
 vars == <<scn, pc>>
 
 \* ---------------------------------------------------------------- vocabulary
-Kinds    == {"match", "nomatch", "binary", "perm", "dangling", "dir000", "eio", "prefail"}
+Kinds    == {"match", "nomatch", "binary", "perm", "dangling", "dir000", "dir444", "eio", "prefail"}
 Modes    == {"standard", "quiet", "l", "c", "files", "json", "fwm"}
 Namings  == {"explicit", "traversal"}
 ArgKinds == {"ok", "badregex", "badglob", "badenc", "badflag"}
@@ -63,21 +65,21 @@ ArgKinds == {"ok", "badregex", "badglob", "badenc", "badflag"}
 Class(k) == CASE k = "match"   -> "has-match"
               [] k = "nomatch" -> "no-match"
               [] k = "binary"  -> "binary"
-              [] k \in {"perm", "dangling", "dir000"} -> "cannot-open"
+              [] k \in {"perm", "dangling", "dir000", "dir444"} -> "cannot-open"
               [] k \in {"eio", "prefail"}             -> "read-error"
 
 Healthy(k) == k \in {"match", "nomatch", "binary"}
 
 \* the step of processing a path at which a faulty kind fails
 FailStage(k) == CASE k \in {"dangling", "dir000"} -> "list"
-                  [] k = "perm"                   -> "open"
+                  [] k \in {"perm", "dir444"}       -> "open"
                   [] k \in {"eio", "prefail"}     -> "read"
 
 \* the steps a mode performs on every path
 Reaches(mode) == IF mode = "files" THEN {"list"} ELSE {"list", "open", "read"}
 
 \* kinds that can be realised under a naming
-KindsOf(naming) == IF naming = "explicit" THEN Kinds \ {"dir000"}
+KindsOf(naming) == IF naming = "explicit" THEN Kinds \ {"dir000", "dir444"}
                                           ELSE Kinds \ {"dangling", "eio"}
 
 IsScenario(s) ==
